@@ -174,7 +174,8 @@ def _sentinels() -> dict[str, Any]:
     S["static_scatter_set_add_mul"] = lambda x: x.at[1].set(0.1).at[0].add(0.7).at[2].multiply(0.3)
     S["static_scatter_oob_drop"] = lambda x: x.at[jnp.array([0, 9])].set(0.1, mode="drop") + x.at[jnp.array([1, 9])].add(0.7, mode="drop")
     S["static_nan_to_num"] = lambda x: jnp.nan_to_num(jnp.log(x), nan=0.1, neginf=-0.7, posinf=0.3)
-    S["static_activation_params"] = lambda x: jax.nn.leaky_relu(x, 0.1) + jax.nn.elu(x, 0.7) + jax.nn.celu(x, 0.3)
+    S["static_activation_params"] = lambda x: jax.nn.leaky_relu(x, 0.1) + jax.nn.elu(x, 0.7) + jax.nn.gelu(x, False) * 0.3
+    S["static_celu_param"] = lambda x: jax.nn.celu(x, 0.3)
     S["static_select_default_and_piecewise"] = lambda x: jnp.select([x > 0.7, x > 0.1], [x, x * 0.3], default=0.1) + jnp.piecewise(x, [x < 0.1, x >= 0.1], [0.7, lambda v: v * 0.3])
     S["static_full_like_and_tri"] = lambda x: jnp.full_like(x, 0.1) + jnp.tril(jnp.full((3, 3), 0.7)) @ x + jnp.eye(3) @ x * 0.3
     S["static_dynamic_update_slice_const"] = lambda x: lax.dynamic_update_slice(x, jnp.full((1,), 0.1), (1,)) + lax.pad(x, 0.7, [(1, 0, 0)])[:3]
